@@ -147,6 +147,73 @@ fn drive_tpl(vectors: Option<&str>, corpus: &str, rng: &mut Rng, thorough: bool,
   (nv, nc)
 }
 
+
+// ------------------------------------------------------------------------------------------------
+// C07, "or the transformed string": fix templates that use variables produced by `transform`, in the string form and
+// in the object form of `fix` (with and without expansions); values are single-line, so no indentation is involved.
+fn tplx_records(w: &mut NdWriter) -> usize {
+  let lang = SupportLang::JavaScript;
+  let sources = ["oldName(fooBar);\n", "x = oldName(\"é🦀\", b);\n", "oldName(a_b-c, [1, 2]); oldName(z)\n"];
+  let templates = ["newName($UP, $ARG, '$HEAD')", "$UP", "$$$REST|$UP|$NOPE|$up|$", "f($HEAD$HEAD, $ARG)", "$KEBAB-$UP", "$$$REST"];
+  let transform = json!({
+    "UP": {"convert": {"source": "$ARG", "toCase": "upperCase"}},
+    "HEAD": {"substring": {"source": "$ARG", "startChar": 0, "endChar": 3}},
+    "KEBAB": {"convert": {"source": "$UP", "toCase": "kebabCase"}},
+  });
+  let mut n = 0;
+  for (si, src) in sources.iter().enumerate() {
+    for (ti, tpl) in templates.iter().enumerate() {
+      for form in ["string", "object", "object-expand"] {
+        let fix = match form {
+          "string" => json!(tpl),
+          "object" => json!({"template": tpl}),
+          _ => json!({"template": tpl, "expandEnd": {"regex": "^;$"}}),
+        };
+        let rule = json!({"id": "r", "language": "JavaScript", "rule": {"pattern": "oldName($ARG, $$$REST)"}, "transform": transform, "fix": fix});
+        let rule2 = json!({"id": "r", "language": "JavaScript", "rule": {"pattern": "oldName($ARG)"}, "transform": transform, "fix": fix});
+        for (ri, doc) in [rule, rule2].iter().enumerate() {
+          let globals = ast_grep_config::GlobalRules::default();
+          let Ok(cfgs) = ast_grep_config::from_yaml_string::<SupportLang>(&serde_json::to_string(doc).unwrap(), &globals) else { continue };
+          let cfg = &cfgs[0];
+          let g = lang.ast_grep(*src);
+          let Some(nm) = g.root().find(&cfg.matcher) else { continue };
+          let Some(fixer) = cfg.matcher.fixer.as_ref() else { continue };
+          let out = catch_unwind(AssertUnwindSafe(|| fixer.generate_replacement(&nm)));
+          let env = nm.get_env();
+          let mut vals = vec![];
+          for v in env.get_matched_variables() {
+            match v {
+              MetaVariable::Capture(name, _) => {
+                if let Some(node) = env.get_match(&name) {
+                  vals.push(json!({"name": chars(&name), "multi": false, "val": chars(&node.text())}));
+                }
+              }
+              MetaVariable::MultiCapture(name) => {
+                let ns = env.get_multiple_matches(&name);
+                let text = match (ns.first(), ns.last()) {
+                  (Some(a), Some(b)) => src[a.range().start..b.range().end].to_string(),
+                  _ => String::new(),
+                };
+                vals.push(json!({"name": chars(&name), "multi": true, "val": chars(&text)}));
+              }
+              _ => {}
+            }
+          }
+          for key in ["UP", "HEAD", "KEBAB"] {
+            if let Some(b) = env.get_transformed(key) {
+              vals.push(json!({"name": chars(key), "multi": false, "val": chars(&String::from_utf8_lossy(b))}));
+            }
+          }
+          w.put(&json!({"mode": "tplx", "id": format!("tplx-s{si}t{ti}-{form}-{ri}"), "lang": "JavaScript", "form": form, "raw": chars(tpl), "vals": vals,
+                        "panic": out.is_err(), "out": chars(&String::from_utf8_lossy(&out.unwrap_or_default()))}));
+          n += 1;
+        }
+      }
+    }
+  }
+  n
+}
+
 // ------------------------------------------------------------------ C06
 struct EditCase {
   id: String,
@@ -430,6 +497,7 @@ pub fn drive(tpl_vectors: Option<&str>, edit_vectors: Option<&str>, corpus: &str
     let (nv, nc) = drive_tpl(tpl_vectors, corpus, &mut rng, thorough, &mut w);
     summ["tpl_vectors"] = json!(nv);
     summ["tpl_corpus"] = json!(nc);
+    summ["tpl_transformed"] = json!(tplx_records(&mut w));
   }
   if which != "c07" {
     let cases = edit_cases(edit_vectors, corpus, &mut rng, thorough);
